@@ -813,7 +813,7 @@ func c08CheckLawPairs(res *Result, pairs []c08LawPair) {
 				Key:        "C08/spelling/" + p.Law,
 				What:       fmt.Sprintf("%s fails on the real ParseCommandLine: %q and %q are documented as equivalent but give %s", p.Law, p.A, p.B, d),
 				FoundInput: true, Size: c08ArgvSize(p.A) + c08ArgvSize(p.B),
-				Replay:     map[string]any{"kind": "lawpair", "law": p.Law, "a": c08HexArgv(p.A), "b": c08HexArgv(p.B)},
+				Replay: map[string]any{"kind": "lawpair", "law": p.Law, "a": c08HexArgv(p.A), "b": c08HexArgv(p.B)},
 			})
 		}
 		// after "--" everything is an argument
@@ -849,7 +849,7 @@ func c08CheckDashDash(res *Result, doc []c08Opt) {
 				Key:        "C08/spelling/after_dashdash_are_args",
 				What:       fmt.Sprintf("arguments after -- are not plain arguments: %q gives %s", argv, d),
 				FoundInput: true, Size: c08ArgvSize(argv),
-				Replay:     map[string]any{"kind": "dashdash", "a": c08HexArgv(argv)},
+				Replay: map[string]any{"kind": "dashdash", "a": c08HexArgv(argv)},
 			})
 		}
 	}
@@ -868,7 +868,7 @@ func c08CheckAmbiguous(res *Result, doc []c08Opt) {
 					Key:        "C08/spelling/ambiguous_prefix_rejected",
 					What:       fmt.Sprintf("--%s abbreviates two documented options but %q is not rejected as ambiguous: exit %d %q", p, argv, r.Exit, first),
 					FoundInput: true, Size: c08ArgvSize(argv),
-					Replay:     map[string]any{"kind": "ambiguous", "a": c08HexArgv(argv)},
+					Replay: map[string]any{"kind": "ambiguous", "a": c08HexArgv(argv)},
 				})
 			}
 		}
@@ -1050,7 +1050,7 @@ func c08CheckRunPair(ctx *Ctx, res *Result, dir string, variant int, p c08LawPai
 			Key:        "C08/run/spelling/" + p.Law,
 			What:       fmt.Sprintf("equivalent command lines %q and %q (tree variant %d) differ: %s", a, b, variant, d),
 			FoundInput: true, Size: c08ArgvSize(a) + c08ArgvSize(b),
-			Replay:     map[string]any{"kind": "runpair", "law": p.Law, "variant": variant, "a": c08HexArgv(p.A), "b": c08HexArgv(p.B)},
+			Replay: map[string]any{"kind": "runpair", "law": p.Law, "variant": variant, "a": c08HexArgv(p.A), "b": c08HexArgv(p.B)},
 		})
 	}
 	res.Evaluations += 2
@@ -1100,7 +1100,7 @@ func c08CheckPresentation(ctx *Ctx, res *Result, dir string, variant int, base [
 			Key:        "C08/run/presentation",
 			What:       fmt.Sprintf("presentation options change what is found (tree variant %d, base %q): %s", variant, base, d),
 			FoundInput: true, Size: c08ArgvSize(base) + c08ArgvSize(pres),
-			Replay:     map[string]any{"kind": "runpres", "variant": variant, "base": c08HexArgv(base), "pres": c08HexArgv(pres)},
+			Replay: map[string]any{"kind": "runpres", "variant": variant, "base": c08HexArgv(base), "pres": c08HexArgv(pres)},
 		})
 	}
 	res.Evaluations += 2
@@ -1124,7 +1124,7 @@ func c08CheckOnly(ctx *Ctx, res *Result, dir string, variant int, base []string,
 			Key:        "C08/run/only-not-subset",
 			What:       fmt.Sprintf("--only %q prints a diagnostic the unrestricted run does not (tree variant %d, base %q): %s", only, variant, base, m),
 			FoundInput: true, Size: c08ArgvSize(base) + c08ArgvSize(only),
-			Replay:     map[string]any{"kind": "runonly", "variant": variant, "base": c08HexArgv(base), "only": c08HexArgv(only)},
+			Replay: map[string]any{"kind": "runonly", "variant": variant, "base": c08HexArgv(base), "only": c08HexArgv(only)},
 		})
 	}
 	// every unrestricted diagnostic whose *message* contains the pattern must be kept
